@@ -4,7 +4,7 @@
 # any extra checks listed in EXTRA_<id>), reverts, and writes seeded/<id>/caught_by.json
 cd /verif
 EVBAK=$(mktemp -d); cp -r /verif/evidence/. $EVBAK/ 2>/dev/null
-ids=${@:-$(ls seeded | grep -E "^C[0-9]+(r2|r3|r4|r5|r6)?[abc]$")}
+ids=${@:-$(ls seeded | grep -E "^C[0-9]+(r2|r3|r4|r5|r6|r7)?[abc]$")}
 for id in $ids; do
   d=seeded/$id; prop=${id:0:3}
   patch=""
